@@ -6,7 +6,7 @@ RULE = ("K: (a) index maps of LinearReconstructEveryK.init_shapes/time_to_array_
         "(b) Recorder.compress over a whole run + Recorder.decompress at every t for sampled (T,k,start) and random "
         "binary64 histories, pipelines [EveryK] and [DtypeConversion, EveryK], compared with the model's decompress "
         "(tolerance 5e-7: JAX forms the interpolation factor int32/int32 in float32). non-trivial = start>0 or T<=k or "
-        "T-1 not on the k-grid. The property predicate itself (independent Python oracle) is evaluated on every (b) case.")
+        "T-1 not on the k-grid. Every other (b) case records into a state that already holds a previous run (reused container): the second recording must overwrite the first. The property predicate itself (independent Python oracle) is evaluated on every (b) case.")
 
 _jax = None
 
@@ -36,8 +36,9 @@ def impl_maps(T, k, s):
     return int(size), save, idx, ttai
 
 
-def impl_run(T, k, s, vals, pipeline):
-    """record vals[t] at step t through the real Recorder, decompress every t"""
+def impl_run(T, k, s, vals, pipeline, rerun=False):
+    """record vals[t] at step t through the real Recorder, decompress every t; with `rerun` the same recording state
+    first receives a different history (a previous run on a reused container) that the second run must overwrite"""
     j = J()
     jnp, jax = j["jnp"], j["jax"]
     if pipeline == "everyk":
@@ -53,6 +54,10 @@ def impl_run(T, k, s, vals, pipeline):
     key = jax.random.PRNGKey(0)
     comp = jax.jit(lambda st, v, t: rec.compress({"f": v}, st, t, key))
     dec = jax.jit(lambda st, t: rec.decompress(st, t, key)[0]["f"])
+    if rerun:
+        for t in range(T):
+            w = 0.5 * vals[t] + 1.0
+            state = comp(state, jnp.asarray([w, w], dtype=dt), jnp.asarray(t, dtype=jnp.int32))
     for t in range(T):
         state = comp(state, jnp.asarray([vals[t], vals[t]], dtype=dt), jnp.asarray(t, dtype=jnp.int32))
     return [float(dec(state, jnp.asarray(t, dtype=jnp.int32))[0]) for t in range(T)]
@@ -75,9 +80,9 @@ def oracle(T, k, s, vals):
     return out
 
 
-def property_fails(T, k, s, vals, pipeline="everyk", got=None):
+def property_fails(T, k, s, vals, pipeline="everyk", got=None, rerun=False):
     v = [float(np.float32(x)) for x in vals] if pipeline != "everyk" else vals
-    got = impl_run(T, k, s, v, pipeline) if got is None else got
+    got = impl_run(T, k, s, v, pipeline, rerun) if got is None else got
     if pipeline == "widen":
         bad = [t for t in range(T) if got[t] != v[t]]
         return (f"widening round trip differs at steps {bad[:5]}" if bad else None)
@@ -122,15 +127,16 @@ def run(ctx):
         vals = [ctx.rng.uniform(-5, 5) for _ in range(T)]
         if pipeline != "everyk":
             vals = [float(np.float32(x)) for x in vals]
-        got = impl_run(T, k, s, vals, pipeline)
+        rerun = i % 2 == 1          # every other case: the recording state already holds a previous run
+        got = impl_run(T, k, s, vals, pipeline, rerun)
         reps = ctx.driver.ask_many([f"dec {T} {k} {s} {t} " + " ".join(f2h(v) for v in vals) for t in range(s, T)])
         model = [h2f(r) for r in reps]
-        case = {"T": T, "k": k, "s": s, "vals": vals, "pipeline": pipeline}
+        case = {"T": T, "k": k, "s": s, "vals": vals, "pipeline": pipeline, "rerun": rerun}
         ctx.case(sample={"op": "dec", **case, "impl": got[s:]} if i == 2 else None,
-                 nontrivial=("dec",) + (T, k, s) if nontrivial_key(T, k, s) else None, op="dec", pipeline=pipeline)
+                 nontrivial=("dec",) + (T, k, s) if nontrivial_key(T, k, s) else None, op="dec", pipeline=pipeline, rerun=rerun)
         ctx.expect_close("dec", case, got[s:], model, tol=5e-7 if pipeline == "everyk" else 1e-6)
         ctx.impl_property_evals += 1
-        d = property_fails(T, k, s, vals, pipeline, got)
+        d = property_fails(T, k, s, vals, pipeline, got, rerun)
         if d:
             ctx.violation(case, d)
     # widening conversion alone: exact round trip
@@ -149,7 +155,7 @@ def run(ctx):
 def search(ctx, hints):
     for h in hints:
         if isinstance(h, dict) and "vals" in h:
-            d = property_fails(h["T"], h["k"], h["s"], h["vals"], h.get("pipeline", "everyk"))
+            d = property_fails(h["T"], h["k"], h["s"], h["vals"], h.get("pipeline", "everyk"), None, h.get("rerun", False))
             if d:
                 ctx.violation(h, d)
                 return
@@ -158,13 +164,13 @@ def search(ctx, hints):
     hinted = [(h["T"], h["k"], h["s"]) for h in hints if isinstance(h, dict) and "T" in h and "vals" not in h]
     for (T, k, s) in hinted[:40] + cand:
         vals = [float(u * u + 1) for u in range(T)]
-        for pipeline in ("everyk", "widen+everyk"):
+        for pipeline, rerun in (("everyk", False), ("widen+everyk", False), ("everyk", True)):
             ctx.impl_property_evals += 1
-            d = property_fails(T, k, s, vals, pipeline)
+            d = property_fails(T, k, s, vals, pipeline, None, rerun)
             if d:
-                ctx.violation({"T": T, "k": k, "s": s, "vals": vals, "pipeline": pipeline}, d)
+                ctx.violation({"T": T, "k": k, "s": s, "vals": vals, "pipeline": pipeline, "rerun": rerun}, d)
                 return
 
 
 def replay(ctx, inp):
-    return property_fails(inp["T"], inp["k"], inp["s"], inp["vals"], inp.get("pipeline", "everyk"))
+    return property_fails(inp["T"], inp["k"], inp["s"], inp["vals"], inp.get("pipeline", "everyk"), None, inp.get("rerun", False))
